@@ -252,8 +252,11 @@ func cmdCheck(args []string) int {
 	if *tier == "thorough" {
 		quickS, slowS = 10, 180
 	}
-	smtDir := filepath.Join(vdir, ".work", "smt", pid)
+	// a scratch directory of this process alone: two checks of one property may run side by side (quick and thorough,
+	// or against different trees) and must not see - or delete - each other's queries
+	smtDir := filepath.Join(vdir, ".work", "smt", fmt.Sprintf("%s.%d", pid, os.Getpid()))
 	os.RemoveAll(smtDir)
+	defer os.RemoveAll(smtDir)
 	for _, o := range obls {
 		if matchKnown(known, pid, o.Name) != nil {
 			o.QuickOnly = true
